@@ -229,12 +229,15 @@ class ImplWorld:
         if mode == 'runtime-error':
             code += '\nundefined_name_at_module_level\n'
         try:
-            self.eng[e].load_script_from_string(code, overwrite=overwrite)
+            self._load(e, code, overwrite)
         except NameError:
             if mode == 'runtime-error':
                 return 'raised'
             raise
         return 'ok'
+
+    def _load(self, e, code, overwrite):
+        self.eng[e].load_script_from_string(code, overwrite=overwrite)
 
     def op_assert(self, e, term, append):
         yp = self.eng[e]
@@ -405,6 +408,28 @@ def make_pyfunc(yp, rows, arity, style, yields, log):
 def jn(x):
     import json
     return json.loads(json.dumps(x, default=str))
+
+
+class FileLoadImplWorld(ImplWorld):
+    """scripts reach the engine through load_script_from_file: every engine has ONE script file that is rewritten for
+    each load, always with the same modification time (a deployment that unpacks archives, or several loads within
+    one clock tick)"""
+    MTIME_NS = 1700000000 * 10 ** 9
+
+    def _load(self, e, code, overwrite):
+        import os, tempfile
+        if not hasattr(self, '_dir'):
+            self._dir = tempfile.mkdtemp(prefix='verif-loadfile-')
+        path = os.path.join(self._dir, 'rules_%s.py' % e)
+        with open(path, 'w', encoding='utf8') as f:
+            f.write(code)
+        os.utime(path, ns=(self.MTIME_NS, self.MTIME_NS))
+        self.eng[e].load_script_from_file(path, overwrite=overwrite)
+
+    def shutdown(self):
+        import shutil
+        if hasattr(self, '_dir'):
+            shutil.rmtree(self._dir, ignore_errors=True)
 
 
 class Blocked(Exception):
